@@ -50,6 +50,7 @@ pub struct Alphabet {
     pub repay: bool,
     pub close_balance: bool,
     pub liquidate: bool,
+    pub liquidate_padded: bool,
     /// a third party's receivership bracket (start, repay, withdraw, end) at two sizes with a fair repayment
     pub receivership: bool,
     pub bankruptcy: bool,
@@ -91,6 +92,7 @@ impl Alphabet {
             repay: true,
             close_balance: true,
             liquidate: true,
+            liquidate_padded: false,
             receivership: false,
             bankruptcy: true,
             accrue: true,
@@ -314,6 +316,14 @@ impl Model for Hist {
                             if fl >= 1 {
                                 v.push(Action::Liquidate { liquidator: lq, liquidatee: le, asset: ab, liab: lb, amt: fl });
                             }
+                            if al.liquidate_padded {
+                                for pad in 0..3u8 {
+                                    v.push(Action::LiquidatePadded { liquidator: lq, liquidatee: le, asset: ab, liab: lb, amt: 1, pad });
+                                    if fl >= 8 && pad == 0 {
+                                        v.push(Action::LiquidatePadded { liquidator: lq, liquidatee: le, asset: ab, liab: lb, amt: fl / 8, pad });
+                                    }
+                                }
+                            }
                         }
                     }
                 }
@@ -481,6 +491,7 @@ pub fn action_kind(a: &Action) -> &'static str {
         Action::Repay { .. } => "repay",
         Action::CloseBalance { .. } => "close_balance",
         Action::Liquidate { .. } => "liquidate",
+        Action::LiquidatePadded { .. } => "liquidate_padded",
         Action::Receivership { .. } => "receivership",
         Action::Bankruptcy { .. } => "bankruptcy",
         Action::Accrue { .. } => "accrue",
@@ -605,7 +616,7 @@ impl StepOracle for SolvencyOracle {
                 continue;
             }
             let ops = match c.a {
-                Action::Liquidate { .. } | Action::Receivership { .. } => 3,
+                Action::Liquidate { .. } | Action::LiquidatePadded { .. } | Action::Receivership { .. } => 3,
                 _ => 1,
             };
             let allow = solvency_allowance(pn, qn, c.post.now, ops, self.safety);
@@ -776,7 +787,7 @@ pub struct FreshnessOracle;
 fn involved_banks(a: &Action) -> Vec<usize> {
     match a {
         Action::Deposit { b, .. } | Action::Withdraw { b, .. } | Action::Borrow { b, .. } | Action::Repay { b, .. } | Action::CloseBalance { b, .. } | Action::Bankruptcy { b, .. } => vec![*b],
-        Action::Liquidate { asset, liab, .. } => vec![*asset, *liab],
+        Action::Liquidate { asset, liab, .. } | Action::LiquidatePadded { asset, liab, .. } => vec![*asset, *liab],
         _ => vec![],
     }
 }
